@@ -134,18 +134,28 @@ Definition late_claim (b : base) (te : Z * ev) : list rule :=
       (* rule 2048: a new term starts only when the promotion callbacks of the earlier terms have been entered *)
       when (zb fl && ic_haspromote (cfg_of b i) && negb (io_promotes x =? io_terms x)) 2048 ++
       (* rule 2081: the validation loop gives up the claim only on the strength of a validation read issued in the running
-         term (not before the write the term rests on was applied) that was not answered, or was answered with an error or with
-         a record that does not carry the instance's id and token *)
+         term (not before the write the term rests on was applied) that has not been answered within the read's time-out, or
+         was answered with an error or with a record that does not carry the instance's id and token *)
       when (negb (zb fl) && io_flag x && (cause =? sValFail) && (root =? 16) (* from the term's own validation loop, started by becomeLeader *) &&
             negb (existsb (fun o => let q := snd o in
                      (p_kind q =? kGet) && (p_inner q =? sValidate) && (p_i q =? i) &&
                      (match find_ver (b_hist b) (ic_key (cfg_of b i)) (io_acq_rev x) with Some v => ver_t v | None => 0 end <=? p_t q) &&
-                     match p_applied q with
-                     | Some (ok, _, v, _) =>
-                         negb (ok =? oOk) ||
-                         negb (let y := vinfo_of b v in v_mok y && (v_hasid y =? 1) && (v_mid y =? i) && (v_hastok y =? 1) && (v_mtok y =? io_tok x))
-                     | None => true
-                     end) (b_pend b))) 2081 ++
+                     (if existsb (Z.eqb (fst o)) (b_done b) then
+                        (* answered: with an error (the latest return of the calling goroutine), or with a record that is not the
+                           instance's own *)
+                        match p_applied q with
+                        | Some (ok, _, v, _) =>
+                            negb (ok =? oOk) ||
+                            negb (let y := vinfo_of b v in v_mok y && (v_hasid y =? 1) && (v_mid y =? i) && (v_hastok y =? 1) && (v_mtok y =? io_tok x))
+                        | None => true
+                        end ||
+                        match aget (b_rets b) (p_gid q) with
+                        | Some lr => (lr_kind lr =? kGet) && (lr_inner lr =? sValidate) && (10 <=? lr_rk lr)
+                        | None => false
+                        end
+                      else
+                        (* not answered yet: the read's time-out has passed (a late answer does not undo the failure) *)
+                        gen_val_read_timeout (ic_H (cfg_of b i)) <=? fst te - p_t q)) (b_pend b))) 2081 ++
       (* rule 2080: the heartbeat-failure path gives up the claim only after a refresh attempt of the running term has failed:
          the latest attempt was not answered with success in time, or it is still in flight and the loop's time-out has passed *)
       when (negb (zb fl) && io_flag x && (cause =? sHbFail) &&
